@@ -649,7 +649,7 @@ def direct_match(f, pt, ev):
     if ev.kind == "agg":
         if f.is_term(pt) or n["s"] != "=": return False
         rv = n["rv"]
-        if rv["r"] == "agg" and rv["ak"] == "adt" and norm(rv["adt"]) == ev.adt and (ev.var is None or rv["var"] == ev.var):
+        if rv["r"] == "agg" and rv["ak"] == "adt" and re.fullmatch(ev.adt, norm(rv["adt"])) and (ev.var is None or rv["var"] == ev.var):
             return ev.where is None or ev.where(f, pt, n)
         return False
     if ev.kind == "drop":
